@@ -137,31 +137,63 @@ def rule_r2(ctx: Ctx) -> None:
                         ok = f.fullname == UPDATE or f.fullname.startswith("geneticengine.grammar.decorators:weight")
                         ctx.ob("C19.R2", f, nd, "store to a production weight", ok,
                                "" if ok else "production weights are rewritten outside the weight decorator / update_weights")
+    # extract_grammar normalises exactly when a weight is declared (a declared weight of 0 is a declared weight): interpreted
+    # on three declaration tables, the grammar object symbolic, its analysis passes stubbed
+    from ..modelinterp import Budget, Effect, Interp, Sym, UNKNOWN, _NONE
     ex = ctx.fn(EXTRACT)
-    calls = [c for c in walk_local(ex.node) if isinstance(c, ast.Call) and call_name(c) == "update_weights"]
-    okx = False
-    if len(calls) == 1:
-        c = calls[0]
-        from ..astutil import atomic_guards
-        gs = atomic_guards(c, stop=ex.node)
+    P1, P2, P3 = Sym("P1"), Sym("P2"), Sym("P3")
+    for label, table, want in (("no weight declared", {}, False), ("one production declares weight 2", {"P2": {"weight": 2.0}}, True),
+                               ("the only declared weight is 0 (a production switched off)", {"P1": {"weight": 0}}, True),
+                               ("every production declares a weight", {"P1": {"weight": 1}, "P2": {"weight": 3}, "P3": {"weight": 0.5}}, True)):
+        def call_model(it, call, env, args, kwargs, table=table):
+            nm = call_name(call)
+            recv = it.ev(call.func.value, env, 9) if isinstance(call.func, ast.Attribute) else None
+            if nm == "Grammar" and isinstance(call.func, ast.Name):
+                it.heap[("g", "all_nodes")] = [P1, P2, P3]
+                it.heap[("g", "considered_subtypes")] = [P1, P2, P3]
+                return Sym("g")
+            if isinstance(recv, Sym) and recv.tag == "g":
+                if nm in ("register_type", "preprocess"):
+                    return _NONE
+                if nm == "get_weights":
+                    return Sym("current-weights")
+                if nm == "update_weights":
+                    it.trace.append(Effect("call", "update_weights", tuple(args), dict(kwargs), node=call))
+                    return recv
+            if nm == "get_gengy" and len(args) == 1 and isinstance(args[0], Sym):
+                return dict(table.get(args[0].tag, {}))
+            return None
 
-        def mentions_weight(t: ast.AST, depth: int = 0) -> bool:
-            if any(isinstance(x, ast.Constant) and x.value == "weight" for x in ast.walk(t)):
-                return True
-            if depth < 2:
-                for nm_ in [x.id for x in ast.walk(t) if isinstance(x, ast.Name)]:
-                    ds = [a for a in walk_local(ex.node) if isinstance(a, ast.Assign) and len(a.targets) == 1
-                          and isinstance(a.targets[0], ast.Name) and a.targets[0].id == nm_]
-                    if len(ds) == 1 and mentions_weight(ds[0].value, depth + 1):
-                        return True
-            return False
-
-        cond_ok = len(gs) == 1 and gs[0][1] and isinstance(gs[0][0], ast.Call) and call_name(gs[0][0]) == "any" and mentions_weight(gs[0][0])
-        args_ok = len(c.args) == 2 and isinstance(c.args[1], ast.Call) and call_name(c.args[1]) == "get_weights"
-        okx = cond_ok and args_ok
-    n += 1
-    ctx.ob("C19.R2", ex, calls[0] if calls else ex.node, "extract_grammar normalises (update_weights(lr, current weights)) when some class is weighted", okx,
-           "" if okx else "extract_grammar does not normalise the declared weights exactly when a weight is declared")
+        it = Interp(prog, None, lambda *_: None, call_model, max_depth=4, max_traces=8)
+        ps = ex.params
+        env = {ps[0]: [P1, P2, P3], ps[1]: Sym("START")}
+        for p_ in ps[2:]:
+            env[p_] = False
+        n += 1
+        construct = f"extract_grammar normalises the weights iff a weight is declared: {label}"
+        try:
+            runs = it.run(ex, env)
+        except Budget:
+            ctx.ob("C19.R2", ex, ex.node, construct, None, "too many interpretations")
+            continue
+        verdict, why = True, ""
+        for trace, rv, notes in runs:
+            if notes or any(e.kind == "raise" for e in trace):
+                verdict, why = None, (notes[0] if notes else "a path raises")
+                break
+            ups = [e for e in trace if e.kind == "call" and e.name == "update_weights"]
+            if want and not ups:
+                verdict, why = False, (f"with '{label}' the weights are not normalised: the rule's weights do not sum to one "
+                                       f"(unweighted siblings keep 1.0 next to the declared weight)")
+                break
+            if not want and ups:
+                verdict, why = False, "weights are rewritten although no class declares one"
+                break
+            if ups and not (len(ups) == 1 and len(ups[0].args) == 2 and ups[0].args[0] == 1 and isinstance(ups[0].args[1], Sym)
+                            and ups[0].args[1].tag == "current-weights"):
+                verdict, why = False, f"normalisation is called as update_weights{ups[0].args!r}, not as update_weights(1, <the grammar's current weights>)"
+                break
+        ctx.ob("C19.R2", ex, ex.node, construct, verdict, why)
     ctx.floor("C19.R2", n, 4, "weight stores / normalisation call")
 
 
